@@ -143,7 +143,12 @@ def h_identity(ip, st, args, kw, node):
     dt = kw.get('dtype') or (args[1] if len(args) > 1 else None)
     if dt is not None and dt != NONE:
         if isinstance(x, Tup):
-            return Tup(x.items, 'vec')
+            def c(i):
+                iv = i.const_value() if isinstance(i, Poly) else None
+                if iv is not None and ('int' not in repr(dt) or iv.denominator == 1):
+                    return i            # a constant that the cast leaves alone
+                return app('cast', P(i), dt) if isinstance(i, (Poly, Const)) else i
+            return Tup([c(i) for i in x.items], 'vec')
         return app('cast', P(x), dt)
     if isinstance(x, Tup):
         return Tup(x.items, 'vec')
